@@ -55,7 +55,7 @@ Print Assumptions C29_optable_total.
    instruction are rejected, as is an out-of-range value index. *)
 Example C29_nonvacuous :
   (exists f, build optable (mkraw [32; 1; 2; 215; 30; 217; 34; 40; 218; 9; 175; 34; 30; 69; 0; 9; 1] [VFun 0] [] 0 0) = Some f /\ verify f = true /\ length (f_instrs f) = 14%nat) /\
-  (exists f, build optable (mkraw [32; 1; 2; 215; 30; 217; 34; 40; 218; 9; 175; 34; 30; 69; 0; 8; 1] [VFun 0] [] 0 0) = Some f /\ verify f = false) /\
+  (exists f, build optable (mkraw [32; 1; 2; 215; 30; 217; 34; 40; 218; 9; 175; 34; 30; 69; 0; 15; 1] [VFun 0] [] 0 0) = Some f /\ verify f = false) /\
   (exists f, build optable (mkraw [32; 1; 2; 215; 30; 217; 34; 40; 218; 9; 175; 34; 30; 69; 0; 9; 1] [] [] 0 0) = Some f /\ verify f = false).
 Proof.
   split; [|split]; eexists; (split; [vm_compute; reflexivity|]); vm_compute; repeat split; reflexivity.
